@@ -213,7 +213,24 @@ impl Family for B3 {
         for (k, g) in s.gens.iter().enumerate() {
             let before = sb.read(f);
             let mut inv = Invocation::new(&["key", "generate", "-o", f, "--env-pass"]).env("KESTREL_PASSWORD", &g.password);
-            inv.stdin = Stdin::Pipe(format!("{}\n", g.name).into_bytes());
+            let line = format!("{}\n", g.name).into_bytes();
+            // a third of the names arrive in two or three pieces (someone typing into a pipe, a slow producer)
+            let mut t = s.seed ^ (k as u64 + 1).wrapping_mul(0x7069_6563);
+            inv.stdin = if crate::rng::splitmix(&mut t) % 3 == 0 && line.len() >= 3 {
+                let a = 1 + (crate::rng::splitmix(&mut t) as usize) % (line.len() - 2);
+                let b = a + 1 + (crate::rng::splitmix(&mut t) as usize) % (line.len() - a - 1).max(1);
+                let mut pieces = vec![line[..a].to_vec()];
+                if b < line.len() && crate::rng::splitmix(&mut t) % 2 == 0 {
+                    pieces.push(line[a..b].to_vec());
+                    pieces.push(line[b..].to_vec());
+                } else {
+                    pieces.push(line[a..].to_vec());
+                }
+                out.count("probe.name_fed_in_pieces", 1);
+                Stdin::Pieces(pieces)
+            } else {
+                Stdin::Pipe(line)
+            };
             inv.pass_via_tty = typed(s, k);
             inv.entropy_seed = if s.os_rng { None } else { Some(s.seed ^ (k as u64 + 1) * 0x9E37) };
             if let Some((kth, errno, cap)) = g.fault {
@@ -279,11 +296,16 @@ impl Family for B3 {
             // 2. parses as a keyring; every key generated so far is present
             let text = String::from_utf8_lossy(&after).to_string();
             match rk::parse(&text) {
-                None => out.violations.push(viol("C14", "file_no_longer_parses", format!("{}: the keyring no longer parses:\n{}", step, text.chars().take(600).collect::<String>()))),
+                None => {
+                    out.violations.push(viol("C14", "file_no_longer_parses", format!("{}: the keyring no longer parses:\n{}", step, text.chars().take(600).collect::<String>())));
+                    // it parsed before this generation: what the tool has just written is not a keyring
+                    out.violations.push(viol("C17", "tool_written_keyring_does_not_parse", format!("{}: the keyring parsed before this key generation and does not parse after it", step)));
+                }
                 Some(entries) => {
                     for (name, _) in &known {
                         if !entries.iter().any(|e| e.name == *name) {
                             out.violations.push(viol("C14", "earlier_key_missing", format!("{}: key {:?} is no longer in the keyring (entries: {:?})", step, name, entries.iter().map(|e| e.name.clone()).collect::<Vec<_>>())));
+                            out.violations.push(viol("C17", "tool_written_keyring_lost_an_entry", format!("{}: the file the tool wrote parses back without {:?}, which the tool had written there before (entries: {:?})", step, name, entries.iter().map(|e| e.name.clone()).collect::<Vec<_>>())));
                         }
                     }
                     // C17: what the tool wrote parses back to exactly the name that was given
